@@ -455,7 +455,14 @@ func TestPrivKeyEquality(t *testing.T) {
 	name := t.Name()
 	hx.Check(t, 2400, 80000, 0, func(rt *rapid.T) {
 		k := drawKey(rt, "k")
-		o := drawKeyOfType(rt, k.typ, "o")
+		// the donor of foreign parts: mostly the same class (same curve / modulus size, so that
+		// parts are interchangeable), sometimes another class of the type
+		var o *kp
+		if rapid.IntRange(0, 3).Draw(rt, "o-other-class") == 0 {
+			o = drawKeyOfType(rt, k.typ, "o")
+		} else {
+			o = drawKeyOfClass(rt, k.cls, "o")
+		}
 		if o.tag == k.tag {
 			o = freshKey(k.typ, 1<<20+1)
 			if o.tag == k.tag { // rsa pool
@@ -503,7 +510,7 @@ func TestPrivKeyEquality(t *testing.T) {
 				}
 				set = append(set, member{c, v})
 			}
-			labels := []string{k.typ, "op:" + c.op, verdict}
+			labels := []string{k.typ, classLabel(k.cls), "op:" + c.op, verdict}
 			if c.region != "" {
 				labels = append(labels, "part:"+k.typ+"/"+c.region)
 			}
